@@ -1,6 +1,6 @@
 (* Socket.v — SocketWrapper (socket_wrapper.py): buffer state machine over recv() results.
    Definitions only. *)
-From PyUbx Require Import Base Bytes.
+From PyUbx Require Import Base Bytes Reader.
 Open Scope nat_scope.
 
 (* one recv() result: data (b"" = peer closed) or an OSError/TimeoutError *)
@@ -62,3 +62,7 @@ Fixpoint tail_fail (l : list ev) : Prop :=
   | Chunk _ :: t => tail_fail t
   | Fail :: t => chunks t = [] /\ tail_fail t
   end.
+
+(* iterating a UBXReader built on SocketWrapper(sock) where sock.recv yields the results l *)
+Definition sock_run {P} (parse : N -> bytes -> result P) (nmea_hdr : N -> bool) (c : cfg) (l : list ev) :=
+  read_all sock_read sock_readline parse nmea_hdr c (S (length (chunks l))) (sock_init l).
